@@ -527,12 +527,13 @@ func (s *Stream) ReadMessageBytes(ctx context.Context, data []byte) (int, error)
 
 	available := len(s.receiveBuffer) - s.bytesRead
 	if available == 0 {
-		// Need to read more frames
-		err := s.readNextFrame(ctx)
-		if err != nil {
-			return 0, err
+		// StartMessageRead buffered the complete message (readNextFrame reads up
+		// to the end flag), so nothing more belongs to it. Reading another frame
+		// here would splice the next message into this one.
+		if len(data) == 0 {
+			return 0, nil
 		}
-		available = len(s.receiveBuffer) - s.bytesRead
+		return 0, io.EOF
 	}
 
 	// Read up to requested amount or available amount
